@@ -8,28 +8,29 @@
 (* NothingForeign, AckedSyncedPresent, NoHoles, CleanCloseComplete.              *)
 EXTENDS Integers, Sequences, FiniteSets, TLC, Json
 Trace == ndJsonDeserialize("trace.ndjson")
-VARIABLES l, wrote, relOK, ended, closedOK
-vars == <<l, wrote, relOK, ended, closedOK>>
+VARIABLES l, wrote, real, relOK, ended, closedOK   \* real = indexes of records with count > 0
+vars == <<l, wrote, real, relOK, ended, closedOK>>
 Ev == Trace[l]
 Is(o) == l <= Len(Trace) /\ Trace[l].op = o /\ l' = l + 1
 Range(s) == {s[i] : i \in 1..Len(s)}
 
-TraceInit == l = 1 /\ wrote = <<>> /\ relOK = {} /\ ended = FALSE /\ closedOK = FALSE /\ TLCSet(1, 0)
-Reset == Is("reset") /\ wrote' = <<>> /\ relOK' = {} /\ ended' = FALSE /\ closedOK' = FALSE
-Skip == (Is("fstart") \/ Is("fswitch")) /\ UNCHANGED <<wrote, relOK, ended, closedOK>>
+TraceInit == l = 1 /\ wrote = <<>> /\ real = {} /\ relOK = {} /\ ended = FALSE /\ closedOK = FALSE /\ TLCSet(1, 0)
+Reset == Is("reset") /\ wrote' = <<>> /\ real' = {} /\ relOK' = {} /\ ended' = FALSE /\ closedOK' = FALSE
+Skip == (Is("fstart") \/ Is("fswitch")) /\ UNCHANGED <<wrote, real, relOK, ended, closedOK>>
 (* records with count = 0 are LogData-only batches: written to the log, never replayed *)
 Wrote == Is("fwrote") /\ wrote' = (IF Ev.count > 0 THEN Append(wrote, Ev.seq) ELSE wrote)
+         /\ real' = (IF Ev.count > 0 THEN real \cup {Ev.i} ELSE real)
          /\ UNCHANGED <<relOK, ended, closedOK>>
 (* only releases seen before the crash / stop point count as acknowledgements *)
 Released == Is("freleased")
-            /\ relOK' = (IF ~ended /\ ~Ev.err /\ Ev.seq \in Range(wrote) THEN relOK \cup {Ev.seq} ELSE relOK)
-            /\ UNCHANGED <<wrote, ended, closedOK>>
-Closed == Is("fclosed") /\ closedOK' = (IF ended THEN closedOK ELSE ~Ev.err) /\ UNCHANGED <<wrote, relOK, ended>>
-Crash == Is("fcrash") /\ ended' = TRUE /\ UNCHANGED <<wrote, relOK, closedOK>>
-Stop == Is("fstop") /\ ended' = TRUE /\ UNCHANGED <<wrote, relOK, closedOK>>
+            /\ relOK' = (IF ~ended /\ ~Ev.err /\ Ev.i \in real THEN relOK \cup {Ev.seq} ELSE relOK)
+            /\ UNCHANGED <<wrote, real, ended, closedOK>>
+Closed == Is("fclosed") /\ closedOK' = (IF ended THEN closedOK ELSE ~Ev.err) /\ UNCHANGED <<wrote, real, relOK, ended>>
+Crash == Is("fcrash") /\ ended' = TRUE /\ UNCHANGED <<wrote, real, relOK, closedOK>>
+Stop == Is("fstop") /\ ended' = TRUE /\ UNCHANGED <<wrote, real, relOK, closedOK>>
 
 IsPrefix(s, t) == Len(s) <= Len(t) /\ \A i \in 1..Len(s) : s[i] = t[i]
-Read == Is("fread") /\ UNCHANGED <<wrote, relOK, ended, closedOK>>
+Read == Is("fread") /\ UNCHANGED <<wrote, real, relOK, ended, closedOK>>
   /\ \A i \in 1..(Len(Ev.seqs) - 1) : Ev.seqs[i] < Ev.seqs[i + 1]        \* exactly once, in order
   /\ Range(Ev.seqs) \subseteq Range(wrote)                               \* nothing foreign (negative = foreign bytes)
   /\ relOK \subseteq Range(Ev.seqs)                                      \* acknowledged-synced batches present
